@@ -10,6 +10,7 @@ pub mod pspec;
 pub mod layer_e;
 pub mod gl;
 pub mod c11;
+pub mod t2;
 pub use boundary::*;
 pub use nec::*;
 pub use tree::*;
@@ -18,3 +19,4 @@ pub use pspec::*;
 pub use layer_e::*;
 pub use gl::*;
 pub use c11::*;
+pub use t2::*;
